@@ -53,6 +53,7 @@ RULE = (
     "the first magic check (the parser got past its header)."
     ' Tar header mutations also with recomputed header checksums; crafted pax size-record cycles (an extended header in front of a visor member whose data offset leads back to an earlier header); the 128 MiB grain bomb as zlib, raw deflate and gzip stream.'
 )
+RULE += ' Round 10: CPU budget 8 s + 6 us per input byte; bombs behind grain markers with LBA at / around the capacity; deep acyclic VMDK chains; keystore option injection with the derivation on; one key table named by 3000 object-table entries.'
 ASSUMPTIONS = [
     "PBKDF2 iteration counts above 10^6 in a mutated key safe are not unlocked (the cost is inherent to the stored parameter)",
     "for gzip-wrapped vmtar input the inflated length (<= 64 MiB) counts as the input size",
